@@ -12,8 +12,9 @@ Property C15 — JSON is a lossless interchange form for annotated sequences.
 The theorems speak about the model in Model/PolyJson.lean: `toJ` = json.Marshal, `fromJ` =
 json.Unmarshal into a zero Sequence, `polyjsonParse` = polyjson.Parse, all three driven by the
 struct table `Gen.polyStructs` that is regenerated from the compiled types on every run, so each
-of the theorems below is re-checked against the JSON form the code has *now*.  The JSON text layer
-(escaping, UTF-8, number syntax) is `encoding/json`'s and is tied by correspondence only.
+of the theorems below is re-checked against the JSON form the code has *now*.  The JSON TEXT layer is in the theorems
+too, for the Lean printer and reader (`json_text_roundtrip`, `json_indent_roundtrip`, `text_roundtrip*` (Marshal's compact text), `write_text_*` (MarshalIndent's text));
+that `encoding/json` writes the printer's bytes and reads like the reader is corresponded on every case.
 
 Domain decisions, stated once:
 * "non-ASCII text" means valid Unicode text: strings are code-point lists.  A Go string holding bytes that are
@@ -83,8 +84,14 @@ and slice element types such as `Feature`, `Reference` included) nor any field, 
 pointer receiver — so `encoding/json` encodes every one of them by its struct table, which is what the model does. -/
 theorem no_custom_codecs : ∀ c ∈ Gen.polyCodecs, c.2 = [] := by decide
 
-/-- … and that list covers every struct of the table. -/
+/-- … that list covers every struct of the table … -/
 theorem codecs_cover_structs : ∀ st ∈ Gen.polyStructs, ("poly." ++ st.1) ∈ Gen.polyCodecs.map (·.1) := by decide
+
+/-- … and the type of every field, with every type nested in it (slice / array / pointer elements, map keys and
+elements — by their Go names, so a `type StrandT string` is not mistaken for `string`), is in that list. Together with
+`no_custom_codecs`: no type that occurs anywhere in the JSON form has a codec of its own. -/
+theorem field_types_listed : ∀ st ∈ Gen.polyStructs, ∀ f ∈ st.2,
+    f.typs ≠ [] ∧ ∀ t ∈ f.typs, t ∈ Gen.polyCodecs.map (·.1) := by decide
 
 /-! ## reading back what was written -/
 
@@ -161,30 +168,61 @@ theorem json_int_roundtrip (n : Int) (rest : S) (h : JsonText.NumEnd rest) :
   JsonText.readNum_int n rest h
 
 /-- THE TEXT ROUND TRIP, every JSON value: strings over arbitrary code points, integers, null / true / false, arrays,
-objects with their members in order, nested to any depth: the reader reads back exactly what the printer wrote. -/
+objects with their members in order, nested to any depth: the reader reads back exactly what the printer wrote.
+Strings are code-point lists and the text theorems hold for ALL of them, also for lists no Go string holds (surrogates,
+values above 0x10FFFF: Go would write U+FFFD); Go strings are the lists of scalar values (`validS` in the driver), and
+the UTF-8 encoding of the text into bytes is below the model. -/
 theorem json_text_roundtrip (v : JVal) : JsonRead.parse v.print = some v :=
   JsonText.parse_print v
+
+/-- The same under ANY layout that puts only blanks (space, tab, LF, CR) after `[` `{` `,` `:` and before `]` `}` … -/
+theorem json_layout_roundtrip (L : Layout) (hL : JsonText.BlankLayout L) (v : JVal) (d : Nat) :
+    JsonRead.parse (JVal.printL L d v) = some v :=
+  JsonText.parse_printL L hL v d
+
+/-- … in particular under `json.MarshalIndent(v, "", " ")`'s layout, the text `polyjson.Write` stores and
+`poly convert -o json` prints. -/
+theorem json_indent_roundtrip (v : JVal) : JsonRead.parse v.printIndent = some v :=
+  JsonText.parse_printIndent v
 
 /-- Clause 1 at the level of TEXT: parsing the text written for `x` gives `x` (feature list non-nil, every feature linked
 to the result) — `polyjson.Parse(json.Marshal(x))` with the Lean printer and reader in the place of `encoding/json`'s. -/
 theorem text_roundtrip_exact (x : Sequence) (h : x.WF = true) :
-    parseText (writeText x)
+    parseText (marshalText x)
       = some { x with features := some ((x.features.getD []).map (relinkTo x.sequence)) } := by
-  simp only [parseText, writeText, json_text_roundtrip, Option.map_some, parse_marshal x h]
+  simp only [parseText, marshalText, json_text_roundtrip, Option.map_some, parse_marshal x h]
 
 /-- … hence an equal value (`≈`) … -/
 theorem text_roundtrip (x : Sequence) (h : x.WF = true) :
-    ∃ y, parseText (writeText x) = some y ∧ y.Equiv x :=
-  ⟨_, by simp only [parseText, writeText, json_text_roundtrip, Option.map_some], roundtrip x h⟩
+    ∃ y, parseText (marshalText x) = some y ∧ y.Equiv x :=
+  ⟨_, by simp only [parseText, marshalText, json_text_roundtrip, Option.map_some], roundtrip x h⟩
 
 /-- … and `x` itself for a sequence built with `AddFeature`. -/
 theorem text_roundtrip_self (x : Sequence) (h : x.WF = true) (hl : x.Linked) (hn : x.features ≠ none) :
-    parseText (writeText x) = some x := by
-  simp only [parseText, writeText, json_text_roundtrip, Option.map_some, roundtrip_exact x h hl hn]
+    parseText (marshalText x) = some x := by
+  simp only [parseText, marshalText, json_text_roundtrip, Option.map_some, roundtrip_exact x h hl hn]
 
 /-- plain `json.Unmarshal` of the written text: `x` with nil parent pointers -/
-theorem text_unmarshal (x : Sequence) (h : x.WF = true) : unmarshalText (writeText x) = some x.unlink := by
-  simp only [unmarshalText, writeText, json_text_roundtrip, Option.map_some, unmarshal_marshal x h]
+theorem text_unmarshal (x : Sequence) (h : x.WF = true) : unmarshalText (marshalText x) = some x.unlink := by
+  simp only [unmarshalText, marshalText, json_text_roundtrip, Option.map_some, unmarshal_marshal x h]
+
+/-- Clause 1 through a FILE: `polyjson.Read` of what `polyjson.Write(x, path)` stored (MarshalIndent's text) … -/
+theorem write_text_roundtrip_exact (x : Sequence) (h : x.WF = true) :
+    parseText (writeFileText x)
+      = some { x with features := some ((x.features.getD []).map (relinkTo x.sequence)) } := by
+  simp only [parseText, writeFileText, json_indent_roundtrip, Option.map_some, parse_marshal x h]
+
+theorem write_text_roundtrip (x : Sequence) (h : x.WF = true) :
+    ∃ y, parseText (writeFileText x) = some y ∧ y.Equiv x :=
+  ⟨_, by simp only [parseText, writeFileText, json_indent_roundtrip, Option.map_some], roundtrip x h⟩
+
+theorem write_text_roundtrip_self (x : Sequence) (h : x.WF = true) (hl : x.Linked) (hn : x.features ≠ none) :
+    parseText (writeFileText x) = some x := by
+  simp only [parseText, writeFileText, json_indent_roundtrip, Option.map_some, roundtrip_exact x h hl hn]
+
+/-- … and the pipe path of `poly convert`: `json.MarshalIndent` then plain `json.Unmarshal`. -/
+theorem write_text_unmarshal (x : Sequence) (h : x.WF = true) : unmarshalText (writeFileText x) = some x.unlink := by
+  simp only [unmarshalText, writeFileText, json_indent_roundtrip, Option.map_some, unmarshal_marshal x h]
 
 /-! ## re-linking -/
 
@@ -324,6 +362,8 @@ example : (JVal.str [34, 10, 60, 0x2028, 0x1F9EC, 1]).print
     = ofStr "\"\\\"\\n\\u003c\\u2028" ++ [0x1F9EC] ++ ofStr "\\u0001\"" := by decide
 example : (JVal.arr [.num (-120), .obj [([97], .null), ([98], .bool true)], .arr []]).print
     = ofStr "[-120,{\"a\":null,\"b\":true},[]]" := by decide
+example : (JVal.arr [.num 1, .obj [([97], .arr []), ([98], .obj [([99], .null)])]]).printIndent
+    = ofStr "[\n 1,\n {\n  \"a\": [],\n  \"b\": {\n   \"c\": null\n  }\n }\n]" := by decide
 /-- a writer that satisfies `convert_same`'s hypothesis without being constant -/
 example : ∀ a c : Sequence, a.Equiv c →
     (a.features.getD []).map (·.type) = (c.features.getD []).map (·.type) := by
